@@ -52,7 +52,7 @@ Panic(st) == [st EXCEPT !.ctl = "panic"]
 Stopped(st) == st.ctl = "panic" \/ st.ctl = "fuel"
 
 RECURSIVE EvalE(_, _, _), EvalArgs(_, _, _, _, _), ExecB(_, _, _, _), ExecS(_, _, _), PlaceOf(_, _, _),
-          Loop(_, _, _, _), ForLoop(_, _, _, _, _, _), ForIn(_, _, _, _, _), MatchArms(_, _, _, _, _), StructFields(_, _, _, _, _),
+          Loop(_, _, _, _), ForLoop(_, _, _, _, _, _), ForIn(_, _, _, _, _), ForStep(_, _, _, _, _, _, _), MatchArms(_, _, _, _, _), StructFields(_, _, _, _, _),
           ArrElems(_, _, _, _, _), Deref(_, _)
 
 (* follow references until a non-reference value *)
@@ -191,6 +191,17 @@ ForLoop(P, s, st, cur, hi, fuel) ==
     ELSE IF b.ctl = "c" \/ b.ctl = "n" THEN ForLoop(P, s, [b EXCEPT !.ctl = "n"], ZAdd(cur, ZFromNat(<<1>>)), hi, fuel - 1)
     ELSE b
 
+(* for v in lo..hi:step : upward (v < hi) for a positive step, downward (v > hi) for a negative one, no iteration
+   for step 0; the end bound is exclusive in both directions *)
+ForStep(P, s, st, cur, hi, step, fuel) ==
+    IF fuel = 0 THEN [st EXCEPT !.ctl = "fuel"] ELSE
+    IF step.mag = <<>> \/ (~step.neg /\ ZCmp(cur, hi) >= 0) \/ (step.neg /\ ZCmp(cur, hi) <= 0) THEN st ELSE
+    LET s1 == [st EXCEPT !.fr[Cur(st)] = Bind(@, s.n, IntV(s.ty, cur))]
+        b == ExecB(P, s.b, 1, s1) IN
+    IF b.ctl = "b" THEN [b EXCEPT !.ctl = "n"]
+    ELSE IF b.ctl = "c" \/ b.ctl = "n" THEN ForStep(P, s, [b EXCEPT !.ctl = "n"], WrapTo(ZAdd(cur, step), s.ty), hi, step, fuel - 1)
+    ELSE b
+
 (* for v in xs / for i, v in xs : the elements the array has when the loop starts, in order; i counts from 0 *)
 ForIn(P, s, st, es, j) ==
     IF j > Len(es) THEN st ELSE
@@ -236,6 +247,8 @@ ExecS(P, s, st) ==
       [] s.k = "while"  -> Loop(P, s, st, 200)
       [] s.k = "for"    -> LET lo == EvalE(P, s.lo, st)  hi == EvalE(P, s.hi, lo.st) IN
                            IF Stopped(hi.st) THEN hi.st ELSE ForLoop(P, s, hi.st, lo.v.z, hi.v.z, 200)
+      [] s.k = "forstep" -> LET lo == EvalE(P, s.lo, st)  hi == EvalE(P, s.hi, lo.st)  sp == EvalE(P, s.st, hi.st) IN
+                           IF Stopped(sp.st) THEN sp.st ELSE ForStep(P, s, sp.st, lo.v.z, hi.v.z, sp.v.z, 200)
       [] s.k = "forin"  -> LET a == EvalE(P, s.e, st) IN
                            IF Stopped(a.st) THEN a.st ELSE ForIn(P, s, a.st, a.v.e, 1)
       [] s.k = "match"  -> LET v == EvalE(P, s.e, st) IN
